@@ -185,6 +185,7 @@ func (p *Program) installIntrinsics() {
 			if p == nil {
 				m.runtimePanic(fr, token.NoPos, "invalid memory address or nil pointer dereference")
 			}
+			m.atomicAccess(p, true)
 			m.hbAcquire(p)
 			m.hbRelease(p)
 			nv := Bin(OpAdd, (*p).(*Term), a[1].(*Term))
@@ -197,6 +198,7 @@ func (p *Program) installIntrinsics() {
 			if p == nil {
 				fr.m.runtimePanic(fr, token.NoPos, "invalid memory address or nil pointer dereference")
 			}
+			fr.m.atomicAccess(p, false)
 			fr.m.hbAcquire(p)
 			return *p
 		}
@@ -206,6 +208,7 @@ func (p *Program) installIntrinsics() {
 			if p == nil {
 				fr.m.runtimePanic(fr, token.NoPos, "invalid memory address or nil pointer dereference")
 			}
+			fr.m.atomicAccess(p, true)
 			fr.m.hbRelease(p)
 			*p = a[1]
 			return nil
@@ -214,6 +217,7 @@ func (p *Program) installIntrinsics() {
 			m := fr.m
 			m.schedPoint()
 			p := a[0].(*Value)
+			m.atomicAccess(p, true)
 			m.hbAcquire(p)
 			m.hbRelease(p)
 			if m.branch(Cmp(OpEq, (*p).(*Term), a[1].(*Term))) {
@@ -316,6 +320,7 @@ func (p *Program) installIntrinsics() {
 		if p == nil {
 			fr.m.runtimePanic(fr, token.NoPos, "invalid memory address or nil pointer dereference")
 		}
+		fr.m.atomicAccess(p, false)
 		fr.m.hbAcquire(p)
 		return *p
 	}
@@ -325,6 +330,7 @@ func (p *Program) installIntrinsics() {
 		if p == nil {
 			fr.m.runtimePanic(fr, token.NoPos, "invalid memory address or nil pointer dereference")
 		}
+		fr.m.atomicAccess(p, true)
 		fr.m.hbRelease(p)
 		*p = a[1]
 		return nil
@@ -976,4 +982,11 @@ func (p *Program) namedType(pkgPath, name string) types.Type {
 func calleeName(fn *ssa.Function) string {
 	s := fn.String()
 	return strings.TrimSpace(s)
+}
+
+// atomicAccess feeds an access made through sync/atomic to the race analysis.
+func (m *Machine) atomicAccess(p *Value, write bool) {
+	if m.lockset != nil && m.locksetOn && p != nil {
+		m.lockset.accessAtomic(m, p, write)
+	}
 }
